@@ -20,28 +20,40 @@ CHECK_CORR = 'check_corr'
 CHECK_SPEC = 'check_spec'
 SHARD = 150
 RULE = ('template trees over Table/Point/Function/Constant atoms, AtomicMultiChannelPT, ParallelChannelPT, ArithmeticPT '
-        '(scalar, atomic), TimeReversalPT, SequencePT, RepetitionPT, ForLoopPT, MappingPT, random to_single_waveform sets '
-        '(partial mappings, shadowing, directly nested mappings with and without '
-        'constraints) with constraints and measurement windows on every node kind that accepts them; constraints are '
-        'generated tight against a reference assignment in every environment their node is reached in (loop indices, '
-        'mapped values), deliberately false on unreached nodes (count <= 0, empty range); families: exact declared '
-        'names, +extra names, one declared name removed, one constraint violated (constant moved past the tight '
-        'environment), perturbed values, channels dropped (all / partial), zero factor + removed name in a function '
-        'product, malformed (non-integer count, zero step, negative '
-        'window).  Declared names are taken from the implementation at run time.  Non-trivial = tree with >= 1 '
-        'constraint and >= 2 nodes; distinct = distinct canonical JSON.')
+        '(scalar incl. division and time dependent scalars, atomic), TimeReversalPT, SequencePT, RepetitionPT, ForLoopPT, '
+        'MappingPT (partial mappings, shadowing, self-referential rebinding x -> f(x), swaps, directly nested mappings '
+        'with and without constraints, channel swap / rename, measurement renaming), random to_single_waveform sets, with '
+        'constraints and measurement windows on every node kind that accepts them; constraints are generated tight '
+        'against a reference assignment in every environment their node is reached in (loop indices, mapped values), '
+        'deliberately false on unreached nodes (count <= 0, empty range).  A deterministic directed stream (no RNG) '
+        'enumerates the name-coincidence classes: D1 self-referential / shadowing / swap mappings x 8 positions (incl. '
+        'between a loop and its body with the loop index, eager path in an AtomicMultiChannelPT, nested mapping of the '
+        'same name, above a loop whose bound / index is the name) x 9 constrainable node kinds x constraint on the '
+        'mapping node (outer scope) or below it (mapped scope) x {true where it belongs and false in the other scope, '
+        'the converse}; D2 loop index = a name of its own range / enclosing bound / window; D3 every node kind around a '
+        'FunctionPT with all undeclared internal names (t, measurement and channel names, loop indices, mapping keys) '
+        'as extra parameters; D4 channel swap / rename x dropped channels x removed names.  Families: exact declared '
+        'names, +extra names (second assignment; the two programs are compared by what they play), one declared name '
+        'removed, one constraint violated, perturbed values, channels dropped (all / partial), zero factor + removed '
+        'name in a function product, malformed (non-integer count, zero step, negative window).  Declared names are '
+        'taken from the implementation at run time.  Non-trivial = tree with >= 1 constraint and >= 2 nodes; distinct '
+        '= distinct canonical JSON.')
 TRUSTED = [
     'Coq 8.16.1 kernel + vm_compute',
     'sympy parsing/evaluation of the generated polynomial expressions and comparisons (oracle; expressions whose sympy '
     'free symbols differ from their syntactic variables are filtered out by the generator)',
     'numpy arithmetic on small integers / half-integers is exact',
-    'harness: generators, construction of the real template objects from the JSON tree, Gallina printers',
+    'harness: generators, construction of the real template objects from the JSON tree, Gallina printers, comparison '
+    'of two programs by loop structure, repetition counts, measurement windows and 5 samples per leaf and channel',
 ]
 ASSUMPTIONS = [
-    'templates have no identifier; no volatile parameters; channels are not renamed',
-    'ArithmeticPT: operators + - * with parameter-only scalars; ArithmeticAtomicPT operands have equal durations',
+    'templates have no identifier; no volatile parameters; no channel mapped to None inside a MappingPT; a MappingPT '
+    'that renames channels is not placed directly above a constraint-free MappingPT',
+    'ArithmeticPT: operators + - * / with parameter-only scalars (optionally multiplied by the time variable next to '
+    'an atomic operand; divisors read a parameter); ArithmeticAtomicPT operands have equal durations',
     'expression language: + - * over parameters and dyadic constants; comparisons < <= > >= ==',
-    'AtomicMultiChannelPT without explicit duration; ParallelChannelPT never inside AtomicMultiChannelPT',
+    'AtomicMultiChannelPT without explicit duration; ParallelChannelPT never inside AtomicMultiChannelPT; '
+    'ParallelChannelPT values are not time dependent',
 ]
 
 # ---------------------------------------------------------------------------------------------------------------------
@@ -160,6 +172,29 @@ def py_is_atomic(n):
     if k in ('par', 'ari', 'rev', 'map'):
         return py_is_atomic(n['inner'])
     return False
+
+
+def py_mnames(n):
+    """measurement_names of the user-level tree (every window is called m; a MappingPT may rename it)"""
+    s = {'m'} if n.get('ms') else set()
+    for q in children(n):
+        s |= py_mnames(q)
+    if n['k'] == 'map' and n.get('mren'):
+        s = {n['mren'].get(x, x) for x in s}
+    return s
+
+
+def children(n):
+    k = n['k']
+    if k in ('amc', 'seq'):
+        return list(n['subs'])
+    if k in ('par', 'map', 'ari', 'rev'):
+        return [n['inner']]
+    if k == 'aat':
+        return [n['lhs'], n['rhs']]
+    if k in ('rep', 'for'):
+        return [n['body']]
+    return []
 
 
 def par_ow(n):
@@ -332,7 +367,7 @@ class Gen:
             return ['*', ['+', V(x), C(r.choice([-1, 0, 1]))], V(y)]
         return [r.choice('+-'), V(z) if z not in (x, y) else C(2), ['*', V(y), V(x)]]
 
-    def mapping(self, avail, envs, make_inner, must=None):
+    def mapping(self, avail, envs, make_inner, must=None, chs=None):
         """MappingPT around make_inner(avail', envs')"""
         r = self.rng
         names = sorted(avail)
@@ -363,10 +398,30 @@ class Gen:
             for key, ex in m.items():
                 e2[key] = ev(ex, e)
             envs2.append(e2)
-        inner = make_inner(avail2, envs2)
+        # channel renaming (channel_mapping of the MappingPT): two channels are swapped, a single channel is a fresh
+        # inner channel renamed to the expected one.  Not above a constraint-free mapping (the real constructor merges
+        # the two and composes the channel mappings; the model's constructor merges parameter mappings only).
+        ren, inner_chs = None, chs
+        if chs is not None and r.random() < 0.3:
+            if len(chs) == 2:
+                ren = {chs[0]: chs[1], chs[1]: chs[0]}
+            else:
+                z = self.name('Z')
+                ren, inner_chs = {z: chs[0]}, (z,)
+        st = r.getstate()
+        inner = make_inner(avail2, envs2, inner_chs) if chs is not None else make_inner(avail2, envs2)
+        if ren is not None and inner['k'] == 'map' and not inner['cs']:
+            r.setstate(st)
+            ren = None
+            inner = make_inner(avail2, envs2, chs)
         used = py_pnames(inner)
         m = {key: ex for key, ex in m.items() if key in used}
-        return {'k': 'map', 'inner': inner, 'm': m, 'cs': self.constraints(names, envs, p=0.5)}
+        n = {'k': 'map', 'inner': inner, 'm': m, 'cs': self.constraints(names, envs, p=0.5)}
+        if ren is not None:
+            n['ren'] = ren
+        if r.random() < 0.3 and 'm' in py_mnames(inner):
+            n['mren'] = {'m': 'mm'}         # measurement renaming: transparent for parameters (not in the model)
+        return n
 
     def atomic_sub(self, avail, envs, ch, depth=0):
         """atomic template on one channel with duration 2: atom, mapping / arithmetic around one, sum of two"""
@@ -375,7 +430,7 @@ class Gen:
         if depth >= 2 or c >= 0.5:
             return self.atom(avail, envs, (ch,), in_amc=True)
         if c < 0.25:
-            return self.mapping(avail, envs, lambda a, e: self.atomic_sub(a, e, ch, depth + 1))
+            return self.mapping(avail, envs, lambda a, e, c2: self.atomic_sub(a, e, c2[0], depth + 1), chs=(ch,))
         if c < 0.4:
             return self.arith(avail, self.atomic_sub(avail, envs, ch, depth + 1), (ch,))
         return {'k': 'aat', 'lhs': self.atomic_sub(avail, envs, ch, depth + 1),
@@ -486,7 +541,7 @@ class Gen:
             n = {'k': 'for', 'body': body, 'idx': idx, 'a': a, 'b': b, 'st': st,
                  'cs': self.constraints(names, envs), 'ms': self.windows(names)}
         else:
-            n = self.mapping(avail, envs, lambda a2, e2: self.tree(depth + 1, a2, e2, chs))
+            n = self.mapping(avail, envs, lambda a2, e2, c2: self.tree(depth + 1, a2, e2, c2), chs=chs)
         if r.random() < 0.06:
             n['tsw'] = True     # member of to_single_waveform
         if must is not None and must not in py_pnames(n):
@@ -885,7 +940,7 @@ def d_internal_names(tree):
         if n['k'] == 'for':
             s.add(n['idx'])
         if n['k'] == 'map':
-            s |= set(n['m'])
+            s |= set(n['m']) | set(n.get('ren', {})) | set(n.get('mren', {}).values())
     return sorted(s - py_pnames(tree))
 
 
@@ -1027,8 +1082,41 @@ def directed_extra_cases():
     return cases
 
 
+def directed_channel_cases():
+    """D4: MappingPT channel renaming (swap {A: B, B: A}, fresh inner channel renamed) x dropped outer channels: an
+    inner channel is dropped iff the outer channel it is renamed to is; only the kept channels' values are needed"""
+    cases = []
+    ref = {'p0': F(1), 'p1': F(2), 'p2': F(3)}
+    swap = {'A': 'B', 'B': 'A'}
+    amc2 = lambda: {'k': 'amc', 'subs': [_const(V('p0'), 'A'), _const(V('p1'), 'B')], 'cs': [], 'ms': []}
+    tb2 = lambda: {'k': 'table', 'ch': ['A', 'B'], 'reads': [V('p0'), C(1), V('p1'), C(0)], 'dur': C(2),
+                   'cs': [{'op': '<', 'l': V('p0'), 'r': V('p1')}], 'ms': [[C(0), C(1)]]}
+    mp = lambda inner, ren, cs=(): {'k': 'map', 'inner': inner, 'm': {}, 'cs': list(cs), 'ren': dict(ren)}
+    trees = [
+        ('swap_amc', mp(amc2(), swap)),
+        ('swap_table', mp(tb2(), swap)),
+        ('swap_par', mp({'k': 'par', 'inner': _const(V('p0'), 'A'), 'ow': [['B', V('p1')]]}, swap)),
+        ('swap_ari', mp({'k': 'ari', 'inner': amc2(), 'op': '+', 'side': 'r', 'sa': [], 'sc': [['A', V('p2')]]}, swap)),
+        ('swap_swap', mp(mp(amc2(), swap, [{'op': '<', 'l': V('p0'), 'r': C(5)}]), swap)),
+        ('swap_seq', {'k': 'seq', 'subs': [mp(amc2(), swap), amc2()], 'cs': [], 'ms': []}),
+        ('rename_in_amc', {'k': 'amc', 'subs': [mp(_const(V('p0'), 'Z1'), {'Z1': 'A'}), _const(V('p1'), 'B')],
+                           'cs': [], 'ms': []}),
+        ('rename_loop', {'k': 'for', 'idx': 'i1', 'a': C(0), 'b': C(2), 'st': C(1), 'cs': [], 'ms': [],
+                         'body': mp({'k': 'amc', 'subs': [_const(V('i1'), 'A'), _const(V('p1'), 'B')], 'cs': [], 'ms': []},
+                                    swap)}),
+    ]
+    for name, tree in trees:
+        for drop in ([], ['A'], ['B'], ['A', 'B']):
+            dtag = ''.join(drop) or 'none'
+            cases.append(d_case(tree, ref, 'D4:%s:%s:exact' % (name, dtag), drop=drop))
+            for rm in range(3):
+                cases.append(d_case(tree, ref, 'D4:%s:%s:removed%d' % (name, dtag, rm), kind='removed', rm=rm, drop=drop))
+    return cases
+
+
 def directed_cases(tier):
-    return directed_mapping_cases(tier == 'thorough') + directed_loop_cases() + directed_extra_cases()
+    return (directed_mapping_cases(tier == 'thorough') + directed_loop_cases() + directed_extra_cases()
+            + directed_channel_cases())
 
 
 def gen_cases(rng, tier, ctx, every_constraint=False):
@@ -1127,7 +1215,9 @@ def _build_pt(n, tsw):
                          parameter_constraints=cs, measurements=ms)
     if k == 'map':
         return MappingPT(build_pt_(n['inner']), parameter_mapping={key: estr(e) for key, e in n['m'].items()},
-                         parameter_constraints=cs, allow_partial_parameter_mapping=True)
+                         parameter_constraints=cs, allow_partial_parameter_mapping=True,
+                         channel_mapping=dict(n['ren']) if n.get('ren') else None,
+                         measurement_mapping=dict(n['mren']) if n.get('mren') else None)
     raise ValueError(k)
 
 
@@ -1282,7 +1372,11 @@ def g_pt(n, nm):
         return '(For %s %s %s %s %s %s %s)' % (g_pt(n['body'], nm), nm(n['idx']), g_expr(n['a'], nm), g_expr(n['b'], nm),
                                                g_expr(n['st'], nm), g_cs(n['cs'], nm), g_ms(n['ms'], nm))
     if k == 'map':
-        return '(Map %s %s %s)' % (g_pt(n['inner'], nm),
+        inner = g_pt(n['inner'], nm)
+        if n.get('ren'):
+            inner = '(Ren %s %s)' % (inner, glist(lambda kv: '(%s, %s)' % (nm('ch:' + kv[0]), nm('ch:' + kv[1])),
+                                                  sorted(n['ren'].items())))
+        return '(Map %s %s %s)' % (inner,
                                    glist(lambda kv: '(%s, %s)' % (nm(kv[0]), g_expr(kv[1], nm)), list(n['m'].items())),
                                    g_cs(n['cs'], nm))
     raise ValueError(k)
@@ -1333,6 +1427,10 @@ def histogram_keys(case, obs):
             keys.append('ari:' + ('time_dependent' if n.get('td') else 'div' if n['op'] == '/' else 'plain'))
         if n['k'] == 'map' and any(key in evars(e) for key, e in n['m'].items()):
             keys.append('map:self_referential')
+        if n['k'] == 'map' and n.get('ren'):
+            keys.append('map:channels_' + ('swapped' if len(n['ren']) == 2 else 'renamed'))
+        if n['k'] == 'map' and n.get('mren'):
+            keys.append('map:measurement_renamed')
         if n['k'] == 'for' and n['idx'] in (evars(n['a']) | evars(n['b']) | evars(n['st']) | cs_vars(n['cs'])):
             keys.append('for:index_in_own_range_or_constraint')
         if n.get('tsw'):
@@ -1500,24 +1598,31 @@ MANIFEST = {
                   '(lazy MappedScope, RangeScope, keys()/as_dict() forcing) and _create_program / build_waveform / '
                   'get_measurement_windows of Table/Point/Function/Constant/AtomicMultiChannel/ParallelChannel/Arithmetic '
                   '(scalar and atomic)/TimeReversal/Sequence/Repetition/ForLoop/Mapping templates with per-channel '
-                  'dropping; FunctionPT substitution is modelled symbolically (polynomial residual).  Proved for all '
-                  'trees, scopes and drop sets (induction on the template): the constructor preserves the specification '
-                  '(C03_construct_spec), so all clauses are stated on the user-level tree; the model refines an '
-                  'independent lazy specification (obligations of all reached nodes); (a) declared names suffice; (b) '
-                  'assignments agreeing on the declared names give the same result, complete or not (C03_irrelevant); '
-                  '(c) complete assignment: accepted iff every obligation holds, else ParameterConstraintViolation; '
-                  '(c only-if, d) for any assignment under the executable guard guard_C03_function_zero; '
-                  'C03_missing_refuted exhibits the known finding in the model.  The model is tied to /repo by an exact '
-                  'correspondence check on generated trees x assignment families (thorough: exhaustive small scope); '
-                  'check_spec evaluates the clauses from the specification on the user-level tree.',
+                  'dropping and the channel renaming of MappingPT (Ren); FunctionPT substitution is modelled '
+                  'symbolically (polynomial residual).  Proved for all trees, scopes and drop sets (induction on the '
+                  'template): the constructor preserves the specification (C03_construct_spec), so all clauses are '
+                  'stated on the user-level tree; the model refines an independent lazy specification (obligations of '
+                  'all reached nodes); (a) declared names suffice; (b) assignments agreeing on the declared names give '
+                  'the same result, complete or not (C03_irrelevant); (c) complete assignment: accepted iff every '
+                  'obligation holds, else ParameterConstraintViolation; (c only-if, d) for any assignment under the '
+                  'executable guard guard_C03_function_zero; C03_missing_refuted exhibits the known finding in the '
+                  'model.  The model is tied to /repo by an exact correspondence check on a deterministic directed '
+                  'stream of name-coincidence classes (self-referential / shadowing / swap mappings in every position, '
+                  'loop index = range name, extra parameters named like internal names, channel renaming x dropped '
+                  'channels) plus generated trees x assignment families (thorough: exhaustive small scope); check_spec '
+                  'evaluates the clauses from the specification on the user-level tree, clause (b) including equality '
+                  'of the two instantiated programs (sampled); failing cases are classified by the Coq guard.',
     'level_note': 'Known finding (FunctionPT: a missing parameter multiplied by a supplied 0 vanishes symbolically) is '
                   'reproduced by the model; clauses (c only-if)/(d) and the refinement are proved under the guard that '
-                  'excludes exactly such inputs.  Two defects fixed in /repo (nested MappingPT dropped inner constraints; '
-                  'ArithmeticAtomicPT did not declare its measurement parameters).  Trusted: Coq kernel, sympy on the '
-                  'generated polynomial fragment (function expressions of depth <= 2), harness.  Not modelled: division '
-                  'and time-dependent scalars in ArithmeticPT, volatile parameters, channel/measurement renaming.',
+                  'excludes exactly such inputs.  Four defects fixed in /repo (nested MappingPT dropped inner '
+                  'constraints; ArithmeticAtomicPT did not declare its measurement parameters; a parameter called t '
+                  'broke ArithmeticPT scalars / time dependent ParallelChannelPT values; the eager scope copy hiding t '
+                  'changed the result of incomplete assignments).  Equality of program contents in clause (b) is '
+                  'tested, not proved (waveforms are not modelled).  Trusted: Coq kernel, sympy on the generated '
+                  'polynomial fragment (function expressions of depth <= 2), harness.  Not modelled: volatile '
+                  'parameters, time dependent ParallelChannelPT values, channel_mapping to None inside a MappingPT.',
     'technique': 'Coq proof (structural induction over the nested template type; refinement of a lazy obligation '
                  'semantics; relational proof over scope objects) + correspondence check with an independent '
-                 'specification oracle',
+                 'specification oracle on a directed deterministic stream and a random stream',
     'design_ref': 'DESIGN.md §5 C03',
 }
